@@ -15,7 +15,9 @@ from ref import wire, core_packets as refp
 
 PROPERTY = 'C09'
 META = {
-    'bounds': 'sequentialised connection; the protocol number reported by '
+    'bounds': 'close_early: the server closes straight after accept and each '
+              'of the first two client writes may fail with EPIPE '
+              '(symbolic); ' 'sequentialised connection; the protocol number reported by '
               'the server is ANY integer in [-2^31, 2^31) (symbolic); host of '
               '1 arbitrary scalar value, port 0..65535, user name of 1 '
               'scalar value symbolic; default version symbolic over the '
@@ -76,6 +78,8 @@ class NegServer(simnet.BaseServer):
         self.handshake = None
         self.status_frames = []
         self.login_frames = []
+        if shape == 'close_early' and sock.index == 0:
+            self.close()            # closes straight after accept
 
     def handle(self, state, body):
         from minecraft.networking.packets import clientbound
@@ -86,7 +90,7 @@ class NegServer(simnet.BaseServer):
         elif state == 'status':
             self.status_frames.append(body)
             if body[0] == 0:
-                if self.shape == 'close':
+                if self.shape in ('close', 'close_early'):
                     self.close()
                     return
                 txt = self.world.doc(self.status_obj)
@@ -142,6 +146,7 @@ def negotiate(ctx, allowed, shape, auth=False, sentinel=False):
         'no_protocol': {'version': {'name': 'srv'}},
         'empty': {},
         'close': None,
+        'close_early': None,
     }[shape]
     excs, exits = [], []
     servers = []
@@ -155,7 +160,10 @@ def negotiate(ctx, allowed, shape, auth=False, sentinel=False):
         token = authentication.AuthenticationToken('a', 'b', 'c')
         token.profile.id_ = 'pid'
         token.profile.name = sstr.ctx_str(ctx, 'profile_name', 1)
-    with World(ctx, factory) as wld:
+    # close_early: the server closes straight after accept, so the client's
+    # own first writes may fail with EPIPE (E-socket write faults)
+    with World(ctx, factory,
+               write_faults=2 if shape == 'close_early' else 0) as wld:
         conn = Connection(host, port, username=user, auth_token=token,
                           allowed_versions=_allowed(allowed),
                           initial_version=default,
@@ -167,12 +175,15 @@ def negotiate(ctx, allowed, shape, auth=False, sentinel=False):
     conds = []
     s0 = servers[0]
     # ---- first connection: status handshake at the latest allowed version
-    conds.append(z3.BoolVal(s0.handshake is not None))
-    if s0.handshake is None:
-        return z3.BoolVal(False)
-    conds.append(_handshake_ok(s0.handshake, latest, host, port, 1))
-    conds.append(z3.BoolVal(len(s0.status_frames) == 1 and
-                            list(s0.status_frames[0]) == [0]))
+    if shape == 'close_early' and wld.sockets[0].broken:
+        pass        # a write failed: the server saw at most a prefix
+    else:
+        conds.append(z3.BoolVal(s0.handshake is not None))
+        if s0.handshake is None:
+            return z3.BoolVal(False)
+        conds.append(_handshake_ok(s0.handshake, latest, host, port, 1))
+        conds.append(z3.BoolVal(len(s0.status_frames) == 1 and
+                                list(s0.status_frames[0]) == [0]))
     name = token.profile.name if auth else user
 
     def logged_in_with(version):
@@ -210,7 +221,7 @@ def negotiate(ctx, allowed, shape, auth=False, sentinel=False):
                 if ctx.mode == 'conc':
                     conds.append(z3.BoolVal(str(p) in msg))
                 conds.append(z3.BoolVal(wld.sockets[0].closed))
-    elif shape in ('no_version', 'no_protocol', 'close'):
+    elif shape in ('no_version', 'no_protocol', 'close', 'close_early'):
         conds.append(logged_in_with(default))
     else:   # empty object
         ok = len(excs) == 1 and isinstance(excs[0], IOError) and \
@@ -366,6 +377,10 @@ def instances(tier, seed):
                                 {'allowed': cfg, 'shape': shape}, W=96,
                                 budget_s=3000, witness_every=3,
                                 max_decisions=200000))
+    out.append(Instance('negotiate:pair:close_early', 'negotiate',
+                        {'allowed': 'pair', 'shape': 'close_early'}, W=96,
+                        budget_s=1800, witness_every=3,
+                        max_decisions=200000))
     out.append(Instance('negotiate:pair:version:auth', 'negotiate',
                         {'allowed': 'pair', 'shape': 'version',
                          'auth': True}, W=96, budget_s=1800,
